@@ -17,6 +17,7 @@ type Tape struct {
 	pos     int
 	Rec     []uint32
 	Exhaust int // replay only: number of draws past the end of the tape
+	then    bool
 }
 
 func splitmix(x *uint64) uint64 {
@@ -53,6 +54,13 @@ func ReplayTape(vals []uint32) *Tape {
 	return &Tape{replay: append([]uint32(nil), vals...), isRepl: true}
 }
 
+// ReplayThen replays vals and continues with a fresh stream seeded by seed
+// once they are used up (used to re-drive a schedule that diverges after an
+// injected fault).
+func ReplayThen(vals []uint32, seed uint64) *Tape {
+	return &Tape{replay: append([]uint32(nil), vals...), isRepl: true, then: true, state: seed}
+}
+
 // Choose returns a value in [0,n). n <= 1 returns 0 but still consumes a slot,
 // so that the tape layout does not depend on data-dependent bounds more than
 // necessary.
@@ -64,6 +72,8 @@ func (t *Tape) Choose(n int) int {
 	if t.isRepl {
 		if t.pos < len(t.replay) {
 			v = t.replay[t.pos] % uint32(n)
+		} else if t.then {
+			v = uint32(splitmix(&t.state)>>33) % uint32(n)
 		} else {
 			t.Exhaust++
 			v = 0
@@ -104,3 +114,20 @@ func (t *Tape) Weighted(w ...int) int {
 }
 
 func (t *Tape) Recorded() []uint32 { return append([]uint32(nil), t.Rec...) }
+
+// samplePositions draws k distinct positions from 1..n (k < n) by a partial
+// Fisher-Yates shuffle: a bounded number of draws whatever the tape returns.
+func samplePositions(t *Tape, n, k int) []int {
+	idx := make([]int, n)
+	for i := range idx {
+		idx[i] = i + 1
+	}
+	for i := 0; i < k && i < n; i++ {
+		j := i + t.Choose(n-i)
+		idx[i], idx[j] = idx[j], idx[i]
+	}
+	if k > n {
+		k = n
+	}
+	return idx[:k]
+}
